@@ -473,10 +473,14 @@ fn call(f: Func, args: &[Node], at: NV) -> R {
                 Avg => {
                     let s: f64 = fs.iter().sum();
                     let sa: f64 = fs.iter().map(|v| v.abs()).sum();
-                    num(
-                        s / fs.len() as f64,
-                        if q == Q::Exact { Q::Tol(sa * 1e-15) } else { Q::Skip },
-                    )
+                    let n = fs.len() as f64;
+                    if (!s.is_finite() || !sa.is_finite()) && fs.iter().all(|v| v.is_finite()) {
+                        // only the sum overflows: the mean of the scaled terms
+                        let m: f64 = fs.iter().map(|v| v / n).sum();
+                        let ma: f64 = fs.iter().map(|v| (v / n).abs()).sum();
+                        return num(m, if q == Q::Exact && ma.is_finite() { Q::Tol(ma * 1e-14) } else { Q::Skip });
+                    }
+                    num(s / n, if q == Q::Exact { Q::Tol(sa * 1e-15) } else { Q::Skip })
                 }
                 _ => {
                     let mut s = fs.clone();
@@ -485,7 +489,8 @@ fn call(f: Func, args: &[Node], at: NV) -> R {
                     if l % 2 == 1 {
                         num(s[l / 2], tolz)
                     } else {
-                        let v = (s[l / 2] + s[l / 2 - 1]) / 2.0;
+                        let (a, b) = (s[l / 2], s[l / 2 - 1]);
+                        let v = if !(a + b).is_finite() && a.is_finite() && b.is_finite() { a / 2.0 + b / 2.0 } else { (a + b) / 2.0 };
                         num(
                             v,
                             if q == Q::Exact {
